@@ -34,6 +34,8 @@ def run(ctx):
     ctx.run_rule("M2", r_ffi.rule_M2, ["asm-full"] + (["intr-full"] if ctx.tier == "thorough" else []))
     ctx.run_rule("M3", r_ffi.rule_M3, ["pure-full"])
     ctx.run_rule("A9", r_asm.rule_A9)
+    import r_asmsym
+    ctx.run_rule("R1asm1", r_asmsym.rule_R1asm_single)
     ctx.run_rule("K1asm", r_asm.rule_K1asm)
     ctx.run_rule("K4c", r_round.rule_K4_c)
     ctx.run_rule("K4r", r_round.rule_K4_rust, ["pure-full"])
